@@ -348,13 +348,14 @@ result_t DateTimeDataType::readSymbols(size_t offset, size_t length, const Symbo
     }
     switch (type) {
       case 2:  // date only
-        if (!hasFlag(REQ) && (symbol == m_replacement || (!hasFlag(REZ) && symbol == 0))) {
+        if (!hasFlag(REQ) && (symbol == m_replacement || (!hasFlag(REZ) && symbol == 0))
+        && !(length == 2 && i == 0)) {  // a day count is null only as a whole, not per byte
           if (i + 1 != length) {
             *output << NULL_VALUE << ".";
             break;
           } else if (last == m_replacement || (!hasFlag(REZ) && last == 0)) {
             if (length == 2) {  // number of days since 01.01.1900
-              *output << NULL_VALUE << ".";
+              *output << NULL_VALUE << "." << NULL_VALUE << ".";
             }
             *output << NULL_VALUE;
             break;
@@ -390,10 +391,14 @@ result_t DateTimeDataType::readSymbols(size_t offset, size_t length, const Symbo
         break;
 
       case 1:  // time only
-        if (!hasFlag(REQ) && symbol == m_replacement) {
+        if (!hasFlag(REQ) && symbol == m_replacement
+        && !(hasFlag(SPE) && (i == 0 || last != m_replacement))) {  // minutes since midnight are null only as a whole
           if (length == 1) {  // truncated time
             *output << NULL_VALUE << ":" << NULL_VALUE;
             break;
+          }
+          if (hasFlag(SPE)) {
+            *output << NULL_VALUE;
           }
           if (i > 0) {
             *output << ":";
